@@ -44,7 +44,7 @@ class Report:
 
 def case_payload(pid, case, dr, verdict, extra=None):
     p = {"property": pid, "kind": "run", "program_text": dr.get("text"), "prog": case["prog"],
-         "vals": case["vals"], "imm": case["imm"], "script": dr.get("script"),
+         "vals": case["vals"], "imm": case["imm"], "react": case.get("react"), "react_all": case.get("react_all"), "script": dr.get("script"),
          "options": case.get("options", {}), "impl_trace": dr.get("trace"),
          "impl_exception": dr.get("exc"), "verdict": verdict}
     if extra:
@@ -76,7 +76,7 @@ def run_slice(pid, cfg, n_cases, seed, workdir, rep, stats, profiles=None, attri
             stats["profile:" + pname] += 1
             if dr["exc"] is not None:
                 stats["impl_exception"] += 1
-                kf = attribute(case, "exception") if attribute else None
+                kf = attribute(case, dr) if attribute else None
                 if kf:
                     stats["known:" + kf] += 1
                 else:
@@ -91,6 +91,7 @@ def run_slice(pid, cfg, n_cases, seed, workdir, rep, stats, profiles=None, attri
     verdicts = run_cases.judge_cases(todo, workdir, jobs=16, proj=cfg["proj"], mon=cfg["mon"])
     samples = []
     for (case, dr), v in zip(todo, verdicts):
+        w = v["net"]
         st = shapes.stats(case["prog"])
         for k in ("parallel", "cond", "while", "count", "parloop"):
             if st[k]:
@@ -99,27 +100,43 @@ def run_slice(pid, cfg, n_cases, seed, workdir, rep, stats, profiles=None, attri
         stats["services_total"] += st["service"]
         if any(case["imm"][:8]):
             stats["with_immediate_completions"] += 1
-        if v["model"] != 0:
-            stats["outside_model_%d" % v["model"]] += 1
-            continue
-        stats["compared"] += 1
-        if not v["mon_model"]:
-            # the model itself fails the monitor: a defect of the machinery, never of /repo
-            rep.violation(case_payload(pid, case, dr, v, {"machinery_error": "monitor fails on the model's own trace"}),
+        if any(e[0] == "fire_in" for r in dr["trace"] for e in r["log"]):
+            stats["with_reentrant_completions_of_other_services"] += 1
+        for tag, x in (("ref", v), ("net", w)):
+            if x["model"] != 0:
+                stats["%s_outside_model_%d" % (tag, x["model"])] += 1
+            else:
+                stats["compared_with_" + tag] += 1
+        if v["model"] != 0 and w["model"] != 0:
+            stats["monitor_only"] += 1
+        else:
+            stats["compared"] += 1
+        if (v["model"] == 0 and not v["mon_model"]) or (w["model"] == 0 and not w["mon_model"] and v["model"] == 0):
+            # a model fails the monitor on its own trace where the reference semantics applies:
+            # a defect of the machinery, never of /repo
+            rep.violation(case_payload(pid, case, dr, v, {"machinery_error": "monitor fails on a model's own trace"}),
                           "no-failing-input-found")
             continue
-        bad = (v["disagree"] is not None) or (not v["mon_impl"])
-        if v["full_disagree"] is not None and v["disagree"] is None:
-            stats["divergences_outside_projection"] += 1
-        if bad:
-            kf = attribute(case, "trace") if attribute else None
+        ref_bad = v["model"] == 0 and v["disagree"] is not None
+        net_bad = w["model"] == 0 and w["disagree"] is not None
+        mon_bad = not v["mon_impl"]
+        for tag, x in (("ref", v), ("net", w)):
+            if x["model"] == 0 and x["full_disagree"] is not None and x["disagree"] is None:
+                stats["divergences_outside_projection_" + tag] += 1
+        if ref_bad or mon_bad or net_bad:
+            # the net model reproduces the known defects, so a deviation from it is never excused
+            kf = attribute(case, dr) if (attribute and not net_bad) else None
             if kf:
                 stats["known:" + kf] += 1
+            elif ref_bad or mon_bad:
+                rep.violation(case_payload(pid, case, dr, v, {"failed": {"reference_semantics": ref_bad,
+                                                                           "monitor": mon_bad, "net_model": net_bad}}))
             else:
-                rep.violation(case_payload(pid, case, dr, v))
+                rep.violation(case_payload(pid, case, dr, v, {"failed": {"net_model": True},
+                                                              "broken": "correspondence NetModel (PFDL.NetRun.run_net) vs implementation"}),
+                              "no-failing-input-found")
         else:
             stats["agree"] += 1
-            key = (len(dr["script"]), st["service"], st["depth"])
             stats.setdefault("_distinct", set()).add(
                 (dr["text"], tuple(map(tuple, dr["script"]))))
             if len(samples) < 3 and len(dr["script"]) > 2:
@@ -132,7 +149,8 @@ def replay_run(pid, cfg, payload, workdir):
     import gen_run
     import run_cases
     case = {"prog": payload["prog"], "vals": payload["vals"], "imm": payload["imm"],
-            "options": payload.get("options", {})}
+            "options": payload.get("options", {}), "react": payload.get("react"),
+            "react_all": payload.get("react_all")}
     opts = case["options"]
     prof = gen_run.Profile()
     dr = run_cases.drive(case, random.Random(0), prof, test_ids=opts.get("test_ids", True),
@@ -142,7 +160,9 @@ def replay_run(pid, cfg, payload, workdir):
     if not dr["valid"]:
         return {"fails": True, "why": "rejected by the validator: " + dr["stdout"][:200], "dr": dr}
     v = run_cases.judge_cases([(case, dr)], workdir, jobs=1, proj=cfg["proj"], mon=cfg["mon"])[0]
-    fails = v["model"] == 0 and (v["disagree"] is not None or not v["mon_impl"])
+    w = v["net"]
+    fails = ((v["model"] == 0 and v["disagree"] is not None) or (w["model"] == 0 and w["disagree"] is not None)
+             or not v["mon_impl"])
     return {"fails": fails, "why": str(v), "dr": dr, "verdict": v}
 
 
@@ -285,22 +305,39 @@ def main():
     return rc
 
 
+def reentrant_in_finished(case, dr):
+    """history shape of finding D20: the engine reported another service finished from inside
+    a finished notification (service-finished / task-finished)"""
+    if not case.get("react_all"):
+        return False
+    for r in dr.get("trace") or []:
+        last = None
+        for e in r["log"]:
+            if e[0] == "notif" and e[1] == 0:
+                last = e[2]
+            elif e[0] == "fire_in" and last in ("SF", "TF"):
+                return True
+    return False
+
+
 def run_kind_slice(pid, cfg, tier, seed, workdir, rep, stats, findings):
     import shapes
     known_shapes = {f["shape"]: f["id"] for f in findings if f["status"] == "known" and f.get("shape")}
 
-    def attribute(case, what):
+    def attribute(case, dr):
         for sh in sorted(shapes.parloop_findings(case["prog"])):
             if sh in known_shapes:
                 return known_shapes[sh]
+        if "reentrant_in_finished" in known_shapes and reentrant_in_finished(case, dr):
+            return known_shapes["reentrant_in_finished"]
         return None
 
     samples = run_slice(pid, cfg, cfg[tier], seed, workdir, rep, stats)
     # shapes of the known findings: generated too, failures attributed by shape predicate
-    if cfg.get("all_shapes_profile"):
+    profs = list(cfg.get("finding_profiles", []))
+    if profs:
         n = max(40, cfg[tier] // 4)
-        run_slice(pid, cfg, n, seed + 1, workdir, rep, stats, profiles=[cfg["all_shapes_profile"]],
-                  attribute=attribute)
+        run_slice(pid, cfg, n, seed + 1, workdir, rep, stats, profiles=profs, attribute=attribute)
     return samples
 
 
